@@ -14,6 +14,7 @@ use refsem::*;
 use serde_json::json;
 use std::collections::{BTreeMap, HashMap};
 use std::sync::atomic::{AtomicU64, Ordering};
+use std::str::FromStr;
 use std::sync::Arc;
 
 fn v(x: Var) -> E {
@@ -790,6 +791,90 @@ fn check_on_env(a: &Accepted, ei: usize, req: &Req, store: &Store, ev: &cedar_po
     }
 }
 
+/// Actions whose group lives in ANOTHER namespace (after seed C03-b2): the typechecker decides
+/// `action in <literals>` statically from the schema's action hierarchy, and what it then
+/// skips must really be unreachable. Self-contained world in Cedar schema syntax; oracle: a
+/// strictly valid policy evaluates without any error on every conformant request (the bodies
+/// hold no arithmetic, so every evaluation error is a type / attribute error).
+fn cross_namespace_actions(ctx: &Ctx) {
+    const SCHEMA: &str = r#"
+namespace NS1 { action all; action none; }
+namespace NS2 {
+  entity User = { age: Long, nick?: String };
+  entity Doc;
+  action view in [NS1::Action::"all"] appliesTo { principal: [User], resource: [Doc] };
+  action look in [Action::"local"] appliesTo { principal: [User], resource: [Doc] };
+  action local in [NS1::Action::"all"];
+  action edit appliesTo { principal: [User], resource: [Doc] };
+}
+"#;
+    let Ok((schema, _)) = cedar_policy::Schema::from_cedarschema_str(SCHEMA) else {
+        ctx.violation("gen:ns-schema-rejected", "cross-namespace schema rejected", json!({}));
+        return;
+    };
+    let validator = cedar_policy::Validator::new(schema.clone());
+    let groups = ["NS1::Action::\"all\"", "NS1::Action::\"none\"", "NS2::Action::\"local\"", "[NS1::Action::\"all\"]", "[NS2::Action::\"edit\", NS1::Action::\"all\"]", "[NS1::Action::\"none\", NS2::Action::\"local\"]"];
+    let unsafe_tail = ["principal.nick like \"a*\"", "principal.nick == \"al\""];
+    let mut pols: Vec<String> = Vec::new();
+    for g in groups {
+        for t in unsafe_tail {
+            pols.push(format!("permit(principal, action in {g}, resource) when {{ {t} }};"));
+            pols.push(format!("permit(principal, action, resource) when {{ action in {g} && {t} }};"));
+            pols.push(format!("permit(principal, action, resource) when {{ !(action in {g}) || {t} }};"));
+            pols.push(format!("permit(principal, action, resource) when {{ if action in {g} then {t} else true }};"));
+            pols.push(format!("permit(principal, action, resource) when {{ if action in {g} then true else {t} }};"));
+            pols.push(format!("permit(principal, action, resource) unless {{ action in {g} }} when {{ {t} }};"));
+            pols.push(format!("forbid(principal, action, resource) when {{ (action in {g} || principal.age > 1) && {t} }};"));
+            pols.push(format!("permit(principal, action in {g}, resource) when {{ principal has nick && {t} }};"));
+        }
+    }
+    let ents_json = json!([
+        {"uid": {"type": "NS2::User", "id": "a"}, "attrs": {"age": 3, "nick": "al"}, "parents": []},
+        {"uid": {"type": "NS2::User", "id": "b"}, "attrs": {"age": 0}, "parents": []},
+        {"uid": {"type": "NS2::Doc", "id": "d"}, "attrs": {}, "parents": []}
+    ]);
+    let Ok(ents) = cedar_policy::Entities::from_json_value(ents_json, Some(&schema)) else {
+        ctx.violation("gen:ns-entities-rejected", "cross-namespace entities rejected", json!({}));
+        return;
+    };
+    let uid = |s: &str| cedar_policy::EntityUid::from_str(s).unwrap();
+    let auth = cedar_policy::Authorizer::new();
+    let mut l = Local::default();
+    for text in &pols {
+        let Ok(p) = cedar_policy::Policy::parse(Some(cedar_policy::PolicyId::new("ns")), text) else {
+            ctx.violation("gen:ns-policy-rejected", text.clone(), json!({}));
+            continue;
+        };
+        let Ok(set) = cedar_policy::PolicySet::from_policies([p]) else { continue };
+        l.transitions += 1;
+        let valid = validator.validate(&set, cedar_policy::ValidationMode::Strict).validation_errors().next().is_none();
+        l.case(hash_of(&("ns", text)), if valid { "ns:accepted" } else { "ns:rejected" }, valid);
+        if !valid {
+            continue;
+        }
+        for pr in ["NS2::User::\"a\"", "NS2::User::\"b\""] {
+            for act in ["NS2::Action::\"view\"", "NS2::Action::\"look\"", "NS2::Action::\"edit\""] {
+                let Ok(req) = cedar_policy::Request::new(uid(pr), uid(act), uid("NS2::Doc::\"d\""), cedar_policy::Context::empty(), Some(&schema)) else {
+                    ctx.violation("gen:ns-request-rejected", format!("{pr} {act}"), json!({}));
+                    continue;
+                };
+                let r = auth.is_authorized(&req, &set, &ents);
+                l.transitions += 1;
+                l.case(hash_of(&("ns", text, pr, act)), "ns:evaluated", true);
+                let first_err: Option<String> = r.diagnostics().errors().next().map(|e| e.to_string());
+                if let Some(e) = first_err {
+                    ctx.violation(
+                        "soundness:cross-namespace-action-group",
+                        format!("strictly valid policy errors on a conformant request ({pr}, {act}): {e}: `{text}`"),
+                        json!({"policy": text, "principal": pr, "action": act, "schema": SCHEMA}),
+                    );
+                }
+            }
+        }
+    }
+    ctx.merge(l);
+}
+
 pub fn run(tier: Tier, replay_file: Option<&str>) -> i32 {
     if let Some(p) = replay_file {
         return replay(p);
@@ -850,6 +935,7 @@ pub fn run(tier: Tier, replay_file: Option<&str>) -> i32 {
         ctx.merge(l);
     });
     let _ = BTreeMap::<u8, u8>::new();
+    cross_namespace_actions(&ctx);
     ctx.finish(
         "policies over the vocabulary of schema W: type-directed must-accept set (documented guard shapes), open guard shapes (guard x access x shape), all depth-1/2 operator applications over 41 typed atoms, other action scopes; every strictly accepted policy is evaluated on every conformant (request, store) of the small universe with a typed-AST walk; case = candidate policy, and (accepted policy, environment); all non-trivial",
         json!({"atoms": atoms().len(), "guards": guards().len(), "tier": tier.name()}),
